@@ -7,7 +7,7 @@
 From Brc.Model Require Import Base History Table BlockTable Store.
 From Brc.Model Require Import Engine EngineStore.
 From Brc.Model Require Import Allowed.
-From Brc.Proofs Require Import HistoryP KvP TableP BlockTableP StoreP EngineP EngineStoreP AllowedP.
+From Brc.Proofs Require Import HistoryP KvP TableP BlockTableP StoreP EngineP EngineStoreP AllowedP ProgressP.
 From BrcGen Require Import Consts.
 
 Theorem C01_window_pinned : W = 10.
@@ -117,6 +117,111 @@ Example C01_nonvacuous :
   | _ => False
   end.
 Proof. split; [vm_compute; discriminate|vm_compute; repeat split]. Qed.
+
+(* PROGRESS.  The theorems above say what holds IF the store answers [Ok]; this one says it
+   always does: on a protocol-conform trace the store model never answers [Err] (its own reorg
+   depth guard) and never [Panic]s (a write stamped below the newest stamp of its key's history,
+   an emptied history, a rollback below a history's floor).  The extra invariant behind it
+   (Proofs/ProgressP.v, [Fresh]): every history the next write can load carries only stamps up
+   to the block under construction -- in particular after a reorg, which truncates every
+   history to the target although it does not lower the table clock. *)
+Theorem C01_store_never_fails_on_wf_traces :
+  forall (ops : list sop) (st' : wfst),
+    wf_run W wf_init ops = Some st' -> exists s', sto_run W st_empty ops = Ok s'.
+Proof. exact (store_run_progress W). Qed.
+Print Assumptions C01_store_never_fails_on_wf_traces.
+
+(* One step, from any state satisfying the invariants. *)
+Theorem C01_store_step_never_fails :
+  forall s F st o st',
+    SInv W s F st -> Fresh s st -> wf_step W st o = Some st' -> exists s', sto_step W s o = Ok s'.
+Proof. exact (store_step_progress W). Qed.
+Print Assumptions C01_store_step_never_fails.
+
+(* END TO END.  For every history of engine calls from the initial state in which each accepted
+   call issues store operations of the shape the engine code issues for it and each rejected
+   call issues none ([allowed]): the concatenated store trace is well-formed, the store runs it
+   without error or panic, ends in a state that represents the plain "value as of block m" map
+   of the trace, and every reorg the protocol allows next is accepted and makes every key read
+   the value it had at the end of the target block. *)
+Theorem C01_end_to_end :
+  forall (h : list (call * list sop)),
+    allowed W MAX_FUTURE_TRANSACTION_NONCES MAX_FUTURE_TRANSACTION_BLOCKS INDEXER_ADDRESS g_init wf_init h ->
+    exists st s,
+      wf_run W wf_init (concat (map snd h)) = Some st /\
+      sto_run W st_empty (concat (map snd h)) = Ok s /\
+      SInv W s (fs_run fs_init (concat (map snd h))) st /\
+      forall n st', wf_step W st (SReorg n) = Some st' ->
+        exists s', sto_step W s (SReorg n) = Ok s' /\
+                   forall k, t_latest (st_t s') k = Ok (fst (fs_run fs_init (concat (map snd h))) k n).
+Proof.
+  exact (engine_end_to_end W MAX_FUTURE_TRANSACTION_NONCES MAX_FUTURE_TRANSACTION_BLOCKS INDEXER_ADDRESS).
+Qed.
+Print Assumptions C01_end_to_end.
+
+(* The same for a history that passes the executable check (the recorded histories of the
+   correspondence runs). *)
+Theorem C01_end_to_end_checked :
+  forall (h : list (call * list sop)),
+    allowed_b W MAX_FUTURE_TRANSACTION_NONCES MAX_FUTURE_TRANSACTION_BLOCKS INDEXER_ADDRESS g_init wf_init h = true ->
+    exists st s,
+      wf_run W wf_init (concat (map snd h)) = Some st /\
+      sto_run W st_empty (concat (map snd h)) = Ok s /\
+      SInv W s (fs_run fs_init (concat (map snd h))) st /\
+      forall n st', wf_step W st (SReorg n) = Some st' ->
+        exists s', sto_step W s (SReorg n) = Ok s' /\
+                   forall k, t_latest (st_t s') k = Ok (fst (fs_run fs_init (concat (map snd h))) k n).
+Proof.
+  exact (checked_history_end_to_end W MAX_FUTURE_TRANSACTION_NONCES MAX_FUTURE_TRANSACTION_BLOCKS INDEXER_ADDRESS).
+Qed.
+Print Assumptions C01_end_to_end_checked.
+
+(* Non-vacuity of the end-to-end statement: a history of engine calls (initialise at height 0,
+   a transaction and its finalise, three mined blocks, a commit, two more blocks, clearCaches
+   back to the commit, the same two heights built again, a reorg to block 4, a refused call,
+   heights 5-7 built a third time) passes the check, so the hypothesis of C01_end_to_end holds
+   of it; the conclusion is evaluated on it below. *)
+Definition C01_example_history : list (call * list sop) :=
+  let fin (b : N) (us : list sop) :=
+    [SB 1 b (100 + b); SB 2 b (200 + b)] ++ us ++ [SB 0 b (300 + b); SV b (1000 + b) (Some b); SHash b] in
+  [ (CInit 0 7 0, [SV 0 1 (Some 5); SV 0 2 (Some 6)] ++ fin 0 []);
+    (CTx 50 0 8 0 true, [SV 1 1 (Some 9); SV 1 3 (Some 1)]);
+    (CFinalise 8 0 1, fin 1 [SV 1 77 None]);
+    (CMine 3 9, fin 2 [] ++ fin 3 [] ++ fin 4 []);
+    (CCommit, [SCommit]);
+    (CMine 2 9, fin 5 [] ++ fin 6 []);
+    (CClear (Some 4) [(0, 1); (1, 2); (2, 3); (3, 4); (4, 5)] [] [], [SClear]);
+    (CTx 50 0 8 0 true, [SV 5 1 (Some 11)]);
+    (CFinalise 8 0 1, fin 5 []);
+    (CMine 1 9, fin 6 []);
+    (CReorg 4 [] [], [SReorg 4]);
+    (CBadParams, []);
+    (CTx 50 0 8 0 true, [SV 5 1 (Some 12); SV 5 3 None]);
+    (CFinalise 8 0 1, fin 5 []);
+    (CMine 2 9, fin 6 [] ++ fin 7 []) ].
+Example C01_end_to_end_nonvacuous :
+  allowed_b W MAX_FUTURE_TRANSACTION_NONCES MAX_FUTURE_TRANSACTION_BLOCKS INDEXER_ADDRESS g_init wf_init
+            C01_example_history = true /\
+  match wf_run W wf_init (concat (map snd C01_example_history)) with
+  | Some st =>
+      (* the trace ends at height 7, the highest block ever finalised; a reorg to block 5, and one
+         to block 0 (7 <= 0 + W), are allowed next, run, and read the values as of the target *)
+      wf_step W st (SReorg 5) <> None /\ wf_step W st (SReorg 0) <> None /\
+      match sto_run W st_empty (concat (map snd C01_example_history) ++ [SReorg 5]) with
+      | Ok s' => t_latest (st_t s') 1 = Ok (Some 12) /\ t_latest (st_t s') 3 = Ok None /\
+                 t_latest (st_t s') 2 = Ok (Some 6) /\ latest_height s' = 5
+      | _ => False
+      end /\
+      match sto_run W st_empty (concat (map snd C01_example_history) ++ [SReorg 0]) with
+      | Ok s' => t_latest (st_t s') 1 = Ok (Some 5) /\ t_latest (st_t s') 3 = Ok None /\ latest_height s' = 0
+      | _ => False
+      end
+  | None => False
+  end.
+Proof.
+  split; [vm_compute; reflexivity|].
+  vm_compute. repeat split; discriminate.
+Qed.
 
 (* The store theorems are about ONE merged table; the engine has fifteen.  That merge is sound
    only if reorg touches every table commit and clearCaches touch (a table left out of reorg
